@@ -14,12 +14,12 @@ PURE = "executions only; CPython 3.12 of /venv; no external tool involved"
 CHECKS = {
     "C01": ("exploration", "mutation workload on signed documents + identity-provenance oracle on the API boundary + structural oracle over the tool event log",
             "Delivers every mutant of the operator catalogue (edits, comments, signature/reference/ID games, XSW wrapping; plain and "
-            "re-encrypted, attacker-made ciphertext in every slot beside the genuine encrypted assertion) of validly signed responses to every signature-requiring SP setting. An accepted mutant must report exactly the "
+            "re-encrypted, attacker-made ciphertext in every slot beside the genuine encrypted assertion, content re-signed by an outsider, DOCTYPE/ATTLIST games, diagnostics injection) of validly signed responses to every signature-requiring SP setting, also while other threads verify the genuine message under injected yields. An accepted mutant must report exactly the "
             "signed identity, and every successful verification the tool performed for it must have vouched for an element that directly "
             "carries exactly one enveloped signature referencing its own ID.",
             TRUST, "3/C01"),
     "C02": ("exploration", "runtime oracle on the API boundary + offline check of the tool event log, exhaustive finite table",
-            "Runs the whole documented option x signed-layout x plain/encrypted x corruption table (again for issuers without a verification key in metadata) through the real "
+            "Runs the whole documented option x signed-layout x plain/encrypted x corruption table (again for issuers without a verification key in metadata, for SPs that cannot open the encrypted assertion, for clients built from Config/IdPConfig and for options left out after other SPs were built) through the real "
             "Saml2Client and compares accept/reject with an independent truth table in both directions; the driver's "
             "event log must show a genuine successful verification for every signature present in an accepted cell.",
             TRUST, "3/C02"),
@@ -32,31 +32,31 @@ CHECKS = {
             TRUST, "3/C03"),
     "C04": ("exploration", "virtual clock + edge-grid workload + independent xs:dateTime oracle (must-reject / must-accept / unspecified)",
             "Under a virtual clock, rewrites every time bound of an IdP-made response (each subset of optional bounds present), places one bound at "
-            "offsets 1, 2 and far beyond/inside its edge widened by allowances 0..1e7 in several timestamp spellings, under several process time zones, and with several confirmations/statements/assertions of which one is out of range, and compares accept/reject with "
+            "offsets 1, 2 and far beyond/inside its edge widened by allowances 0..1e7 in several timestamp spellings, under several process time zones, and with several confirmations/statements/assertions (and an advice assertion, plain or encrypted) of which one is out of range, arriving over POST/SOAP/Redirect, and compares accept/reject with "
             "an independent reader; on acceptance the session expiry handed to the application is compared. Recording wrappers on "
             "validate_on_or_after/validate_before count the bounds actually decided.",
             TRUST, "3/C04"),
     "C05": ("exploration", "cross-product workload on addressing fields + reference predicate on the API boundary",
             "Runs the product InResponseTo x bearer InResponseTo x Destination x audience layout x Recipient x allow_unsolicited x conversation info x "
-            "destination pattern (thinned in quick, full in thorough, also re-signed) through parse_authn_request_response; acceptance must imply "
+            "destination pattern (thinned in quick, full in thorough, also re-signed), arriving binding x endpoint layout, and assertions carried as advice (plain, inside an encrypted assertion, encrypted on their own) through parse_authn_request_response; acceptance must imply "
             "every addressing rule and the conforming cells must be accepted.",
             TRUST, "3/C05"),
     "C06": ("exploration", "exhaustive status/version table on the API boundary with an independent copy of the documented class table",
-            "Rewrites Status (every top-level code x every standard, absent and unknown second-level code x message x with/without a validly "
+            "Rewrites Status (missing, without StatusCode, every top-level code x every standard, absent, nested and unknown second-level code x message x with/without a validly "
             "signed assertion) and Version (responses, assertions, authentication and logout requests) of real messages; a non-Success response "
             "must raise the documented Status* class (StatusError for absent/unknown codes) and never yield an object; Version other than 2.0 must "
             "give an exception or None.",
             TRUST, "3/C06"),
     "C07": ("exploration", "generated policy/declaration/identity workload + independent reference of the release semantics over the returned XML",
-            "Drives Server.create_authn_response and create_attribute_response (with their optional arguments: queried attributes, encryption, PEFIM advice, signing, alias) over policy shapes (default/per-SP, name-only and regex "
+            "Drives Server.create_authn_response and create_attribute_response (with their optional arguments: queried attributes, encryption, PEFIM advice, signing, alias) over policy shapes (default/per-SP, name-only, empty and regex "
             "restrictions, four entity-category modules, fail_on_missing_requested) x SP declarations (required/optional, value constraints, "
-            "unsatisfiable) x category layouts x identity shapes; the returned XML is read with the stdlib and every released (attribute, value) "
+            "unsatisfiable) x category layouts x identity shapes, several SPs answered by one long-lived Server in sequence and from threads under injected yields; the returned XML is read with the stdlib and every released (attribute, value) "
             "must be in the identity, inside the applicable restrictions/patterns, inside the entity-category entitlement (RELEASE tables read as "
             "data) and inside the SP's declaration where that applies - in every outcome.",
             PURE, "3/C07"),
     "C08": ("exploration", "end-to-end flow workload with independent transport readers and field-by-field oracle on what the application reads",
             "SP and IdP built from each other's generated metadata run complete flows for hostile identity classes (XML-special, look-alike "
-            "markup, multi-byte, padded, long, many-valued), NameID formats, authentication contexts, lifetimes, POST/Redirect/SOAP transport via "
+            "markup, multi-byte, padded, long, many-valued, repeated, typed look-alikes, every line ending), PEFIM advice, NameID formats, authentication contexts, lifetimes, POST/Redirect/SOAP transport via "
             "Entity.apply_binding and every sign_response x sign_assertion x encrypt_assertion x algorithm setting; the plaintext message must "
             "contain exactly the asked attributes/values and nothing else, the SP must accept, and ava (trimmed), name_id, in_response_to, issuer, "
             "authn context and session expiry must equal what was asserted.",
@@ -71,7 +71,7 @@ CHECKS = {
     "C10": ("exploration", "mutation workload on real requests + acceptance predicate on the API boundary + tool-log oracle for signed requests",
             "Requests of seven types (authn, logout, attribute query, manage-name-id, authn query, name-id mapping, artifact resolve) made by the real client, signed and unsigned, over Redirect/POST/SOAP, are delivered pristine and mutated "
             "(addressing, time, schema, wrong root, the C01 signature/reference/ID/wrapping operators, damaged transport encodings) to receivers "
-            "with and without want_authn_requests_signed (IdP and stand-alone attribute authority) and to one without an endpoint for the arriving binding. A returned request must have the "
+            "with and without want_authn_requests_signed / want_authn_requests_only_with_valid_cert (IdP and stand-alone attribute authority) and to one without an endpoint for the arriving binding. A returned request must have the "
             "expected type and required attributes, an own or absent Destination, an IssueInstant within a day, a genuine verification of the "
             "request element itself under the issuer's key if it is signed (signed if wanted), and equal the signed original.",
             TRUST, "3/C10"),
@@ -80,37 +80,37 @@ CHECKS = {
             "UTF-16/BOM, text and bytes in declared encodings, truncations, non-XML) to every *_from_string of every schema module, the generic constructors, the SOAP/pack readers, the "
             "metadata loaders and the client/server parse functions in every binding. Monitors: sys.addaudithook (file/socket/urllib/subprocess), "
             "wrappers on all stdlib parser entry points installed before the package is imported (every parser built inside the package must be the "
-            "defused one), canary text in results, the xmlsec driver log, and a strace -f system-call log of the whole process tree. A syntactic inventory of parsing call sites measures reach; an "
+            "defused one), canary text in results, the xmlsec driver log, and a strace -f system-call log of the whole process tree; the repository's own test suite runs under the parser monitor in the thorough tier. A syntactic inventory of parsing call sites measures reach; an "
             "unreached site makes the run inconclusive.",
             TRUST, "3/C11"),
     "C12": ("exploration", "generated instance trees for every schema class + independent structural comparator and independent parse",
             "For all ~1150 element classes of all schema modules generates instance trees from the class tables (every attribute and child, "
-            "cardinalities 1..3, bounded depth, hostile text, foreign children/attributes), serialises, parses back with the library and "
+            "cardinalities 1..3, bounded depth, hostile text incl. carriage returns, typed attribute values of types without a conversion, foreign children/attributes), serialises, parses back with the library and "
             "compares with a comparator that does not use SamlBase.__eq__; the second serialisation must be byte-identical, the other serialisers run as history on the same instance without changing it, and a stdlib parse "
             "of the text must show children in table order and the foreign content present.",
             PURE, "3/C12"),
     "C13": ("exploration", "table-driven constraint violation in isolation, oracle on valid_instance() in both directions",
             "For every element class builds the minimal instance satisfying all declared constraints and then violates each declared "
             "constraint in isolation (every required attribute missing/empty, every explicit occurrence bound, every attribute/text of a "
-            "checked simple type with a non-conforming value), at the root and nested below valid parents, also on/below elements carrying xsi:nil, xsi:type or foreign attributes; violated must raise, satisfied "
+            "checked simple type with a non-conforming value incl. near misses of the lexical space; every legal lexical form must pass), at the root and nested below valid parents, also on/below elements carrying xsi:nil, xsi:type or foreign attributes; violated must raise, satisfied "
             "must return True (exhaustive over the table entries, sampled over parents).",
             PURE, "3/C13"),
     "C14": ("exploration", "round-trip workload with independent readers (html.parser, urllib.parse, stdlib SOAP reader) + library decoder",
             "Packages library-made messages of several types (signed and unsigned, hostile content) and arbitrary payloads (sizes around every power of two up to 1-4 MiB) with "
-            "Entity.apply_binding for POST, Redirect, SOAP, PAOS and artifact, hostile RelayStates and destinations with/without a query; an "
+            "Entity.apply_binding for POST, Redirect (also signed), SOAP, PAOS and artifact, as text and as bytes, hostile RelayStates and destinations with/without/with an empty query, a fragment or HTML-special characters, hand-written message texts (CDATA, declarations, prefixes, character references), message objects through both envelope builders, artifact endpoint indexes; an "
             "independent reader must find exactly the expected form fields / URL parameters / SOAP body, and Entity.unravel must return the "
             "original (bytes for POST/Redirect, element-equal for SOAP).",
             PURE, "3/C14"),
     "C15": ("exploration", "independent RSA verification + bounded-exhaustive histories + systematic schedule exploration (sys.monitoring gates, CHESS-style DFS)",
             "Signs messages with Entity.apply_binding for all five algorithms and hostile RelayStates and verifies each URL independently (cryptography, raw "
-            "query octets) under all 12 fixture certificates; compares verify_redirect_signature with the independent verdict over 12 single-parameter "
+            "query octets) under all 12 fixture certificates; compares verify_redirect_signature with the independent verdict over ~30 single-parameter "
             "mutations; replays every history of obtain/sign/bind/verify steps up to a bounded length for entities with different keys; and explores "
             "thread interleavings systematically: sys.monitoring PY_START/LINE events in RSACrypto.get_signer and RSASigner.sign are gates, a "
             "controller enumerates all schedules depth first (entry-level: all; line-level: preemption-bounded), plus free-running threads.",
             PURE, "3/C15"),
     "C16": ("exploration", "generated document sets under a virtual clock + dictionary model of the declarations as oracle; signed loads through a stubbed HTTP loader with tool-log oracle",
             "Loads generated federation document sets (1..3 sources, mixed roles, endpoints, indexes, keys by use, entity categories, requested "
-            "attributes, validUntil past/future/absent on entities and enclosing documents, duplicates across sources) into a MetadataStore and "
+            "attributes, boolean spellings, typed entity-category values, validUntil past/future/absent in every legal spelling on entities and enclosing documents, duplicates across sources) into a MetadataStore and "
             "compares every lookup (service helpers for every role/binding, certs by use, entity_categories, attribute_requirement, "
             "with_descriptor, membership, UnknownSystemEntity vs UnsupportedBinding) with the model; loads validly signed, tampered, wrongly "
             "certified, unsigned and wrapped metadata through every configuration form of a source and its certificate; round-trips generated SP/IdP configurations "
@@ -120,22 +120,22 @@ CHECKS = {
             "For every sign_response x sign_assertion x self-contained x {assertion, PEFIM advice, both} combination the emitted response is "
             "scanned for unique identity markers, attribute names and the NameID, decrypted with all 12 fixture keys (only the addressee's may "
             "work) and read back by SPs whose first or second key matches or whose key is published without a use attribute; mutants of the signature, time and addressing families are delivered "
-            "plain and re-encrypted to the same SP (reject(plain) must imply reject(encrypted)); undecryptable content must yield no identity.",
+            "plain and re-encrypted to the same SP (reject(plain) must imply reject(encrypted)); undecryptable content (assertion or EncryptedID) must yield no identity.",
             TRUST, "3/C17"),
     "C18": ("exploration", "reference-model monitor over operation histories (bounded-exhaustive + random), invariants after every step",
             "Replays every operation history up to a bounded depth over 2 users x 2 SPs (abstract-state pruned), long random histories on "
-            "dict- and shelve-backed IdentDB, hostile field contents and the adversarial user-id class against a dictionary model; after each "
+            "dict- and shelve-backed IdentDB (also opened through Server with restarts), Server-level login histories over every NameIDPolicy shape, hostile field contents and the adversarial user-id class against a dictionary model; after each "
             "step every live identifier must resolve to its user only, withdrawn ones to nobody, persistent identifiers must be stable and "
             "distinct, and code/decode must be reversible and collision-free.",
             PURE, "3/C18"),
     "C19": ("exploration", "reference-model monitor under a virtual clock, memory and file cache in lock step",
             "Replays every operation sequence up to a bounded depth (set with past/future expiry, reset, delete, clock advance) and long random "
-            "histories (hostile attribute values, subjects differing in one field, file reopen, process time zones other than UTC) on Cache and Population, memory and file backed, "
+            "histories (hostile attribute values, subjects differing in one field, file reopen, process time zones other than UTC, up to 400 sources per subject, concurrent threads on the memory backend) on Cache and Population, memory and file backed, "
             "comparing every query result and exception class with a dictionary model after each step.",
             PURE, "3/C19"),
     "C20": ("fault_enumeration", "fault-injecting external tool (plan via environment) + offline oracle over the tool event log",
             "Enumerates fault plans (site kind x first/second/every invocation x 18 verification faults + 36 byte-exact garbled diagnostics, 10 sign/encrypt/decrypt faults, tool "
-            "missing / not executable / a directory) over response, assertion, both, request and in-ciphertext verification, statement signing, "
+            "missing / not executable / a directory) over response, assertion, both, request (authn, logout, attribute query, manage-name-id), logout-response and in-ciphertext verification (also several encrypted assertions), statement signing, "
             "assertion encryption and decryption with the first or second key, on valid and tampered messages. The driver marks injected events; "
             "an accepted message needs a genuine un-faulted OK per required level, a tampered message is never accepted, an identity needs a "
             "genuine decryption, and a sign/encrypt run without result must raise.",
